@@ -138,6 +138,12 @@ int block_build(block_t *b, const cfg_t *c, int payload, rng_t *rng, uint64_t nu
 	} else
 		for (uint32_t i = 0; i < n; i++) b->sym[i] = ar_alloc(L, (unsigned)(rng_u64(rng) & 7), AR_SYM, (long)i);
 	for (uint32_t i = 0; i < k; i++) fill_payload(b->sym[i], L, i, k, payload, rng);
+	if (payload == PAY_SPARSE && !b->slab && (rng_u64(rng) & 1)) {
+		/* source symbols with equal contents handed over in ONE buffer (an application that stores equal packets once; the library
+		 * only reads them): among the first 64 sources, each later twin of an earlier symbol shares that symbol's buffer */
+		for (uint32_t i = 1; i < k && i < 64; i++) for (uint32_t j = 0; j < i; j++)
+			if (b->sym[j] != b->sym[i] && !memcmp(b->sym[j], b->sym[i], L)) { int unique = 1; for (uint32_t q = 0; q < i; q++) if (q != j && b->sym[q] == b->sym[i]) unique = 0; if (unique) { ar_free(b->sym[i]); b->sym[i] = b->sym[j]; rep_count("source_symbols_sharing_a_buffer_with_an_equal_one", 1); } break; }
+	}
 	for (uint32_t i = k; i < n; i++) memset(b->sym[i], 0xA5, L);
 	if (!b->slab) for (uint32_t i = 0; i < k; i++) ar_ro(b->sym[i]);
 	uint64_t srcsum = 0;
@@ -179,7 +185,7 @@ int block_build(block_t *b, const cfg_t *c, int payload, rng_t *rng, uint64_t nu
 void block_free(block_t *b)
 {
 	if (b->sym) {
-		if (b->slab) ar_free(b->slab_base); else for (uint32_t i = 0; i < b->n; i++) if (b->sym[i]) ar_free(b->sym[i]);
+		if (b->slab) ar_free(b->slab_base); else for (uint32_t i = 0; i < b->n; i++) { int shared = 0; for (uint32_t j = 0; j < i && j < 64; j++) if (b->sym[j] == b->sym[i]) shared = 1; if (b->sym[i] && !shared) ar_free(b->sym[i]); }
 		free(b->sym);
 	}
 	free(b->g); gf2_sys_free(b->sys);
